@@ -935,8 +935,9 @@ func FunctionMap() map[string]physical.FunctionDetails {
 				},
 				{
 					ArgumentTypes: []octosql.Type{octosql.String},
-					OutputType:    octosql.Int,
-					Strict:        true,
+					// NULL when the string is not an integer.
+					OutputType: octosql.TypeSum(octosql.Int, octosql.Null),
+					Strict:     true,
 					Function: func(values []octosql.Value) (octosql.Value, error) {
 						n, err := strconv.ParseInt(values[0].Str, 10, 64)
 						if err != nil {
@@ -979,8 +980,9 @@ func FunctionMap() map[string]physical.FunctionDetails {
 				},
 				{
 					ArgumentTypes: []octosql.Type{octosql.String},
-					OutputType:    octosql.Float,
-					Strict:        true,
+					// NULL when the string is not a number.
+					OutputType: octosql.TypeSum(octosql.Float, octosql.Null),
+					Strict:     true,
 					Function: func(values []octosql.Value) (octosql.Value, error) {
 						n, err := strconv.ParseFloat(values[0].Str, 64)
 						if err != nil {
